@@ -166,8 +166,33 @@ func (t *Tracker) sql(c *world.StmtCtx) (world.FaultAction, bool) {
 		return world.FaultAction{After: func(w *world.World) {
 			go s.ExpireSession(inst)
 		}, Kind: "delay", Delay: 10 * time.Millisecond}, true
+	case "zk-outage":
+		return world.FaultAction{After: func(w *world.World) {
+			go t.outage(inst)
+		}, Kind: "delay", Delay: 10 * time.Millisecond}, true
 	}
 	return world.FaultAction{}, false
+}
+
+// outage: every daemon loses the coordination service; it comes back for the instance that was the manager after 25 s
+// and for the others 35 s later - the same process is the next manager.
+func (t *Tracker) outage(inst string) {
+	s := t.sc.S
+	in := s.InstByName(inst)
+	if in == nil {
+		return
+	}
+	for _, h := range s.AllHosts() {
+		s.CutZK(h, true)
+	}
+	time.Sleep(25 * time.Second)
+	s.CutZK(in.Host, false)
+	time.Sleep(35 * time.Second)
+	for _, h := range s.AllHosts() {
+		if h != in.Host {
+			s.CutZK(h, false)
+		}
+	}
 }
 
 func (t *Tracker) dcsBefore(inst, method, path string) error {
@@ -222,6 +247,8 @@ func (t *Tracker) dcsAfter(inst, method, path, res string) {
 		}
 	case "session-expire":
 		s.ExpireSession(inst)
+	case "zk-outage":
+		go t.outage(inst)
 	}
 	if t.OnHit != nil {
 		t.OnHit()
